@@ -91,6 +91,9 @@ def one(ctx, dn, directed, idkind, delim, enc, target):
             ctx.cell(c)
         if target in ("fileobj", "bytesio"):
             ctx.expect("fileobj-left-open", tgt.closed_by_library, False, cfg)
+        elif tgt.opened:
+            # files the library opened for a path target must be closed when the call returns
+            ctx.expect("path-target-closed", tgt.left_open, [], cfg)
         data = tgt.data()
         rows, trailing = iohelp.rows_of(data, enc, delim)
         ctx.expect("rows:newline-terminated", trailing, "", cfg)
